@@ -65,16 +65,16 @@ def single (pol : Policy) (w : Bool) (op fn : String) (fw : Bool) (a : CStr) : L
 /-- part after the last '/' (`cp = strrchr (from, '/'); cp ? cp + 1 : from`) -/
 def baseName (p : CStr) : CStr := (p.reverse.takeWhile (· ≠ '/')).reverse
 
-/-- `get_dir ()` after its `check_valid_path`, flags = 0 -/
+/-- `get_dir ()` after its `check_valid_path`, flags = 0: `temppath` is the path without a trailing "/" or
+    "/." (`listDir`); when `stat (temppath)` fails and nothing was cut off, the last component is a
+    pattern and the directory part (`parentDir`, "." without a slash) is listed. -/
 def getDirFs (ex : List CStr) (P : CStr) : List Ev :=
-  let last := baseName P
-  let cut := decide (P.length ≥ 2 ∧ '/' ∈ P ∧ (last = [] ∨ last = dot))
-  let temp := if cut then cutLast P else P
+  let temp := listDir P
+  let cut := decide (temp ≠ P)
   match lookup ex temp with
   | none =>
     if cut then [.fs "stat" false temp]
-    else if P.length ≥ 2 ∧ '/' ∈ P then [.fs "stat" false temp, .fs "opendir" false (cutLast P)]
-    else [.fs "stat" false temp, .fs "opendir" false dot]
+    else [.fs "stat" false temp, .fs "opendir" false (parentDir temp)]
   | some _ =>
     if !cut ∧ temp ≠ dot then [.fs "stat" false temp]
     else [.fs "stat" false temp, .fs "opendir" false temp]
@@ -152,6 +152,23 @@ def saveEfun (pol : Policy) (ex : List CStr) (a : CStr) : List Ev :=
              (if lookup ex P = some .dir ∨ P.getLast? = some '/' then [.fs "unlink" true tmp] else [])
          else [])
 
+/-- `ed (a)` by an interactive user (`ed_start`: valid_read, `doread`), then the editor command `w b`
+    (`getfn (1)`: a name starting with '/' goes to valid_write, `dowrite`) and `Q` -/
+def edWrite (pol : Policy) (b : CStr) (loaded : Bool) : List Ev :=
+  if b.head? = some '/' then
+    let (e2, r2) := ask pol true b "ed_start"
+    e2 ++ (match r2 with
+      | none => []
+      | some Q => if loaded then [Ev.fs "fopen" true Q] else [])
+  else []
+
+def edEfun (pol : Policy) (ex : List CStr) (a b : CStr) : List Ev :=
+  let (e1, r1) := ask pol false a "ed_start"
+  match r1 with
+  | none => e1 ++ edWrite pol b false
+  | some P =>                                       -- `w` writes only a non-empty buffer (deflt (1, P_LASTLN))
+    e1 ++ Ev.fs "fopen" false P :: edWrite pol b (decide (lookup ex P = some .file))
+
 /-- one efun call -/
 def efunEvents (pol : Policy) (ex : List CStr) (efun : String) (a b : CStr) : List Ev :=
   match efun with
@@ -176,14 +193,16 @@ def efunEvents (pol : Policy) (ex : List CStr) (efun : String) (a b : CStr) : Li
   | "link" => .note s!"valid_link {showP a} {showP b}" :: renameEfun pol ex true a b   -- master valid_link first
   | "cp" => cpEfun pol ex a b
   | "save_object" => saveEfun pol ex a
+  | "ed" => edEfun pol ex a b
   | _ => [.note s!"badefun {efun}"]
 
 /-! ### compiler: load_object, #include, inherit -/
 
-/-- the include directories of the verification mudlib (harness/mudlib/base.conf.in: `IncludeDir /include`) -/
-def incDirs : List CStr := [str "include"]
+/-- the include search path of the C15 verification mudlib (props/c15.py writes `IncludeDir /include:/`):
+    the entries as `set_inc_list` stores them ("/" is the mudlib directory: ".") -/
+def incDirs : List CStr := [str "/include", str "/"].filterMap incDirOf
 
-/-- is the `legal_path` guard in `inc_open` present (the `fix:` commit of C15)? -/
+/-- are the repairs of `inc_open` / `inc_lexically_normal` present (the `fix:` commits of C15)? -/
 def incGuarded : Bool := true
 
 /-- `load_object (name)`: stat probe, then (if found and legal) the open -/
@@ -191,7 +210,9 @@ def loadEvents (ex : List CStr) (name : CStr) : List Ev × Bool :=
   match loadAccess name (fun p => (lookup ex p).isSome) with
   | none => ([], false)
   | some a =>
-    (.fs "stat" false a.probe :: (match a.opened with
+    ((match a.probe with
+      | none => []
+      | some p => [Ev.fs "stat" false p]) ++ (match a.opened with
       | none => []
       | some p => [.fs "open" false p]), a.opened.isSome)
 
